@@ -13,6 +13,17 @@ def run(ctx):
     ctx.tlc_mc("MC_Picker", "MC_Picker.cfg", timeout=900)
     if not ctx.quick():
         ctx.tlc_mc("MC_Picker", "MC_Picker_seq.cfg", timeout=1800)
+    # round 3: life-cycle configurations and episodes (stream with failed hash checks / end game with a common allowed-fast
+    # set and more peers than the limit). OFF by default until a full run on the unchanged tree has been timed on an idle
+    # machine: enable with VERIF_C09_LIFE=1.
+    life = os.environ.get("VERIF_C09_LIFE", "") == "1"
+    if life:
+        for c in ("stream", "endgame"):
+            ctx.tlc_mc("MC_PickerLife", "MC_PickerLife_%s.cfg" % c, timeout=1800)
+            ok, out = ctx.tlc_mc("MC_PickerLife", "MC_PickerLife_%s_wit.cfg" % c, timeout=1800, expect_ok=False)
+            if ok or "is violated" not in out:
+                raise vlib.MachineryError("MC_PickerLife_%s_wit.cfg: the witness state is not reachable, the configuration is vacuous "
+                                          "for the class it was written for\n%s" % (c, out[-2000:]))
     # 2. implementation -> specification
     drv = ctx.build_go("c09")
     ntr = ctx.pick(300, 6000)
@@ -24,7 +35,8 @@ def run(ctx):
         n = min(chunk, ntr - done)
         tp = ctx.path("tr%d.ndjson" % k)
         ctx.run_drv(drv, ["-seed", str(ctx.seed * 1000 + k), "-n", str(n), "-ops", str(nops), "-out", tp,
-                          "-maxpeers", str(ctx.pick(4, 6)), "-maxpieces", str(ctx.pick(10, 16)), "-nbig", str(max(1, n // 10)), "-nsteal", str(max(1, n // ctx.pick(2, 6)))])
+                          "-maxpeers", str(ctx.pick(4, 6)), "-maxpieces", str(ctx.pick(10, 16)), "-nbig", str(max(1, n // 10)), "-nsteal", str(max(1, n // ctx.pick(2, 6)))]
+                    + (["-nstream", str(max(1, n // ctx.pick(6, 15))), "-nendgame", str(max(1, n // ctx.pick(6, 15)))] if life else []))
         judge(ctx, tp)
         done += n
         k += 1
